@@ -56,7 +56,10 @@ Fixpoint var_name_for_type (t : ty) : string :=
 (* varName(vr, suffix) *)
 Definition var_name_with (reserved : list string) (rsuffix : string)
            (name : string) (t : ty) (suffix : string) : string :=
-  if negb (String.eqb name "") && negb (String.eqb name "_") then name ++ suffix
+  if negb (String.eqb name "") && negb (String.eqb name "_") then
+    (* a user name; the generated body declares mock and callInfo itself *)
+    let n := name ++ suffix in
+    if String.eqb n "mock" || String.eqb n "callInfo" then n ++ "MoqParam" else n
   else
     let n := var_name_for_type t ++ suffix in
     if str_mem n reserved then n ++ rsuffix else n.
